@@ -9,37 +9,52 @@ From LC.Base Require Import Utf8.
 From LC.V1 Require Import Tok1 Matcher1 Tok1Proof Matcher1Proof.
 
 (* a token-aligned verbatim occurrence is reported with exactly its Offset and Extent (one-token occurrences included, since the "fix:") *)
-(* statement as proved in V1/Matcher1Proof.v (restated through its type) *)
-Theorem C13_exact_occurrence_span : ltac:(let t := type of (@exact_span_aligned) in exact t).
+(* statement as proved in V1/Matcher1Proof.v (written out; checked against the lemma by exact) *)
+Theorem C13_exact_occurrence_span :
+  forall (ulen : Z) (toks : list token) (i j : nat) (ti tj : token) (a0 a1 : Z),
+         wf_toks ulen toks ->
+         nth_error toks i = Some ti ->
+         nth_error toks j = Some tj ->
+         i <= j ->
+         a0 = Z.of_N (t_off ti) ->
+         a1 = (Z.of_N (t_off tj) + Z.of_nat (length (t_text tj)))%Z ->
+         exact_span true toks ulen a0 a1 = XSpan a0 (a1 - a0).
 Proof. exact (@exact_span_aligned). Qed.
-Check C13_exact_occurrence_span.
 Print Assumptions C13_exact_occurrence_span.
 
 (* every reported Offset/Extent lies inside the normalised unknown string *)
-(* statement as proved in V1/Matcher1Proof.v (restated through its type) *)
-Theorem C13_reported_spans_inside_text : ltac:(let t := type of (@exact_span_in_bounds) in exact t).
+(* statement as proved in V1/Matcher1Proof.v (written out; checked against the lemma by exact) *)
+Theorem C13_reported_spans_inside_text :
+  forall (b : bool) (toks : list token) (ulen a0 a1 o e : Z),
+         exact_span b toks ulen a0 a1 = XSpan o e -> (0 <= o)%Z /\ (0 <= e)%Z /\ (o + e <= ulen)%Z.
 Proof. exact (@exact_span_in_bounds). Qed.
-Check C13_reported_spans_inside_text.
 Print Assumptions C13_reported_spans_inside_text.
 
 (* the scan as found was already exact for occurrences of at least two tokens *)
-(* statement as proved in V1/Matcher1Proof.v (restated through its type) *)
-Theorem C13_original_multi_token : ltac:(let t := type of (@exact_span_multi_original) in exact t).
+(* statement as proved in V1/Matcher1Proof.v (written out; checked against the lemma by exact) *)
+Theorem C13_original_multi_token :
+  forall (ulen : Z) (toks : list token) (i j : nat) (ti tj : token) (a0 a1 : Z),
+         wf_toks ulen toks ->
+         nth_error toks i = Some ti ->
+         nth_error toks j = Some tj ->
+         i < j ->
+         a0 = Z.of_N (t_off ti) ->
+         a1 = (Z.of_N (t_off tj) + Z.of_nat (length (t_text tj)))%Z ->
+         exact_span false toks ulen a0 a1 = XSpan a0 (a1 - a0).
 Proof. exact (@exact_span_multi_original). Qed.
-Check C13_original_multi_token.
 Print Assumptions C13_original_multi_token.
 
 (* REFUTATION for the scan as found: "foo" in "bar foo" is the slice [4:3] panic *)
-(* statement as proved in V1/Matcher1Proof.v (restated through its type) *)
-Theorem C13_original_single_token_panics : ltac:(let t := type of (@scan_original_single_token_refuted) in exact t).
+(* statement as proved in V1/Matcher1Proof.v (written out; checked against the lemma by exact) *)
+Theorem C13_original_single_token_panics :
+  exact_span false tok_bar_foo 7 4 7 = XPanic.
 Proof. exact (@scan_original_single_token_refuted). Qed.
-Check C13_original_single_token_panics.
 Print Assumptions C13_original_single_token_panics.
 
 (* ... and "foo" in "foo bar" is reported with extent 7 *)
-(* statement as proved in V1/Matcher1Proof.v (restated through its type) *)
-Theorem C13_original_single_token_extent : ltac:(let t := type of (@scan_original_single_token_refuted_extent) in exact t).
+(* statement as proved in V1/Matcher1Proof.v (written out; checked against the lemma by exact) *)
+Theorem C13_original_single_token_extent :
+  exact_span false tok_foo_bar 7 0 3 = XSpan 0 7.
 Proof. exact (@scan_original_single_token_refuted_extent). Qed.
-Check C13_original_single_token_extent.
 Print Assumptions C13_original_single_token_extent.
 
